@@ -278,6 +278,7 @@ type prop struct {
 	dir        string
 	live       bool
 	matchers   [nOpaque]caddytls.ConnectionMatcher
+	e2eCert    tls.Certificate
 	caB64      string
 	caDER      []byte
 	foreignDER []byte
@@ -406,6 +407,9 @@ func (p *prop) setup() error {
 		}
 		c2, k2, err := selfSigned("public.test")
 		if err != nil {
+			return err
+		}
+		if p.e2eCert, err = tls.X509KeyPair([]byte(c2), []byte(k2)); err != nil {
 			return err
 		}
 		c3, k3, err := selfSigned("*.secret.test")
@@ -847,6 +851,8 @@ func (p *prop) Run(line string) core.Outcome {
 		o = p.runPol(f)
 	case len(f) == 5 && f[0] == "enf":
 		o = p.runEnf(f)
+	case len(f) == 2 && f[0] == "quic":
+		o = p.runQUIC(f)
 	case len(f) == 2 && f[0] == "cf2":
 		o = p.runCF2(f)
 	case len(f) == 3 && f[0] == "cf":
